@@ -258,6 +258,7 @@ type assignMode int
 const (
 	modeAssign assignMode = iota // any assignment counts
 	modeZero                     // only zeroing counts
+	modeNonNil                   // only the assignment of a container that is not nil counts
 )
 
 type resetAnalysis struct {
@@ -290,6 +291,9 @@ func (ra *resetAnalysis) genInstr(in ssa.Instruction, obj ssa.Value, path string
 			if mode == modeAssign {
 				return true
 			}
+			if mode == modeNonNil {
+				return nonNilContainer(x.Val, 0)
+			}
 			if isZeroValue(x.Val) {
 				return true
 			}
@@ -298,15 +302,30 @@ func (ra *resetAnalysis) genInstr(in ssa.Instruction, obj ssa.Value, path string
 		}
 		// *obj = T{…} whole-object store
 		if x.Addr == obj {
-			return true
+			return mode != modeNonNil
 		}
 	case *ssa.Range:
 		// for k := range obj.path { delete(obj.path, k) }
+		if mode == modeNonNil {
+			return false
+		}
 		if u, ok := x.X.(*ssa.UnOp); ok && u.Op == token.MUL && coversPath(u.X, obj, path) && rangeDeletesAll(x) {
 			return true
 		}
 	case ssa.CallInstruction:
 		cc := x.Common()
+		if mode == modeNonNil {
+			f := cc.StaticCallee()
+			if f == nil || f.Blocks == nil || !ra.w.inPkg(f) {
+				return false
+			}
+			for i, a := range cc.Args {
+				if i < len(f.Params) && a == obj && ra.summary(f, i, mode)[path] {
+					return true
+				}
+			}
+			return false
+		}
 		if b, ok := cc.Value.(*ssa.Builtin); ok && b.Name() == "clear" && len(cc.Args) == 1 {
 			if u, ok := cc.Args[0].(*ssa.UnOp); ok && u.Op == token.MUL && coversPath(u.X, obj, path) {
 				return true
@@ -437,6 +456,25 @@ func (ra *resetAnalysis) mustAt(fn *ssa.Function, obj ssa.Value, path string, mo
 		if u, isU := v.(*ssa.UnOp); isU && u.Op == token.MUL && coversPath(u.X, obj, path) && mode == modeAssign {
 			if types.Identical(u.Type().Underlying(), types.Typ[types.Bool]) {
 				return true
+			}
+		}
+		// `if obj.m == nil { obj.m = make(…) }`: on the other edge the container is known not to be nil
+		if mode == modeNonNil {
+			if bo, isBo := v.(*ssa.BinOp); isBo && (bo.Op == token.EQL || bo.Op == token.NEQ) {
+				var side ssa.Value
+				if isNilConst(bo.Y) {
+					side = bo.X
+				} else if isNilConst(bo.X) {
+					side = bo.Y
+				}
+				if u, isU := side.(*ssa.UnOp); isU && u.Op == token.MUL && coversPath(u.X, obj, path) {
+					_, trueIdx, _ := ifCond(b)
+					nonNilEdge := trueIdx
+					if bo.Op == token.EQL {
+						nonNilEdge = 1 - trueIdx
+					}
+					return i == nonNilEdge
+				}
 			}
 		}
 		return false
@@ -1348,4 +1386,123 @@ func checkForeignBufferPool(w *World, r *Report, p *poolInfo, tname string) {
 			r.bad("R01.3", ssaName(s.fn), construct, w.posOf(s.call.Pos()), "the buffer can be returned to the pool with content (no Reset on some path to this Put — an early error return, typically), and the acquiring side does not reset it either ("+getWhy+"): the next owner's output starts with what the previous one wrote before it failed")
 		}
 	}
+}
+
+// nonNilContainer: v is a map/slice that cannot be nil — made here, taken from a pool (pools of
+// the package hand out made containers), or returned by a package function all of whose returns are.
+func nonNilContainer(v ssa.Value, depth int) bool {
+	v = unspill(v)
+	if depth > 3 {
+		return false
+	}
+	switch x := v.(type) {
+	case *ssa.MakeMap, *ssa.MakeSlice:
+		return true
+	case *ssa.TypeAssert:
+		if c, ok := x.X.(*ssa.Call); ok && isFunc(calleeFunc(c), "sync", "Pool", "Get") {
+			return true
+		}
+	case *ssa.Phi:
+		for _, e := range x.Edges {
+			if !nonNilContainer(e, depth+1) {
+				return false
+			}
+		}
+		return true
+	case *ssa.Call:
+		g := x.Call.StaticCallee()
+		if g == nil || !isTwigFn(g) || len(g.Blocks) == 0 || g.Signature.Results().Len() != 1 {
+			return false
+		}
+		all, n := true, 0
+		instrsOf(g, func(in ssa.Instruction) {
+			if ret, ok := in.(*ssa.Return); ok {
+				n++
+				if !nonNilContainer(retResults(ret)[0], depth+1) {
+					all = false
+				}
+			}
+		})
+		return all && n > 0
+	}
+	return false
+}
+
+// checkContextMapsAllocated — R05.19: a table of a render context is there when it is written.
+// For every store m[k] = v into a map that is a field of a pooled context object: either the
+// function establishes, on every path to the store, that the map is not nil (it assigns a made
+// or pooled map, or stands behind a nil test), or every function that takes such an object out of
+// the pool assigns the field a non-nil map on every path before handing the object on.  A
+// constructor that leaves the allocation "to the first writer" must have told every writer.
+func checkContextMapsAllocated(w *World, r *Report) {
+	ra := &resetAnalysis{w: w, memo: map[string]map[string]bool{}, busy: map[string]bool{}}
+	ctxT := w.named("RenderContext")
+	var pool *poolInfo
+	for _, p := range w.pools() {
+		et := p.elem
+		if et == nil {
+			for _, g := range p.gets {
+				if g.val != nil {
+					et = g.val.Type()
+				}
+			}
+		}
+		if et != nil && types.Identical(deref(et), ctxT) {
+			pool = p
+		}
+	}
+	if pool == nil {
+		cannotDecide("R05.19: the pool of render contexts was not found")
+	}
+	acquireOK := map[string]string{} // field -> "" if every acquiring site establishes it, else where not
+	established := func(field string) string {
+		if s, ok := acquireOK[field]; ok {
+			return s
+		}
+		where := ""
+		for _, g := range pool.gets {
+			if g.val == nil {
+				where = ssaName(g.fn) + " (untyped use)"
+				continue
+			}
+			if !ra.mustAt(g.fn, g.val, field, modeNonNil, nil) {
+				where = ssaName(g.fn)
+			}
+		}
+		acquireOK[field] = where
+		return where
+	}
+	n := 0
+	for _, fn := range w.pkgFuncs() {
+		instrsOf(fn, func(in ssa.Instruction) {
+			mu, ok := in.(*ssa.MapUpdate)
+			if !ok {
+				return
+			}
+			u, ok := mu.Map.(*ssa.UnOp)
+			if !ok || u.Op != token.MUL {
+				return
+			}
+			fa, ok := u.X.(*ssa.FieldAddr)
+			if !ok {
+				return
+			}
+			tn, field := fieldOfAddr(fa)
+			if tn != "RenderContext" {
+				return
+			}
+			n++
+			construct := "RenderContext." + field + " is allocated when it is written"
+			if ra.mustAt(fn, fa.X, field, modeNonNil, []ssa.Instruction{in}) {
+				r.ok("R05.19", ssaName(fn), construct, w.posOf(in.Pos()), "the function assigns or tests the map on every path to the store", true)
+				return
+			}
+			if where := established(field); where == "" {
+				r.ok("R05.19", ssaName(fn), construct, w.posOf(in.Pos()), "every function that takes a context out of the pool gives it a map", true)
+			} else {
+				r.bad("R05.19", ssaName(fn), construct, w.posOf(in.Pos()), "nothing on the way to this store makes sure the map exists, and "+where+" can hand out a context whose "+field+" is nil (a recycled context has its tables taken away on release): the store panics with `assignment to entry in nil map`")
+			}
+		})
+	}
+	r.floor("stores into tables of a render context", n, 3)
 }
